@@ -5,5 +5,5 @@ wt=/tmp/mut${wv}_$P; sid=${P}-${wv}
 mkdir -p /verif/seeded/$sid
 (cd $wt && git diff > /verif/seeded/$sid/patch.diff && cp demo_$P.py /verif/seeded/$sid/demo.py) || exit 1
 git -C /repo worktree remove --force $wt
-echo "$sid $*" >> /tmp/seedflow2.q
+echo "$sid $*" >> /tmp/seedflow3.q
 echo saved $sid
